@@ -7,7 +7,7 @@
 //!    of range of the target type) makes the conversion fail, never wrap or skip;
 //!  * extend_str on Empty / Str / Strs and on non-textual values; extend_u16 / i16 / i32 / u32 / f32 / f64
 //!    on Str / Strs (numbers appended as text after the existing strings);
-//!  * truncate on Str / Strs / Date / Time / DateTime (first min(n, limit) items kept; Str and Empty untouched).
+//!  * truncate on Str / Strs / Date / Time / DateTime (first min(n, limit) items kept; a Str is one item; Empty untouched).
 use dicom_core::value::{DicomDate, DicomDateTime, DicomTime, PrimitiveValue, C};
 
 struct Tally { cases: u64, bad: u64 }
@@ -139,7 +139,9 @@ fn main() {
         t.check(v == strs(&want), || format!("truncate({}) on Strs[A, B, C] gives {:?}", limit, v));
         let mut v = PrimitiveValue::Str("A\\B".to_string());
         v.truncate(limit);
-        t.check(v == PrimitiveValue::Str("A\\B".to_string()), || format!("truncate({}) on a Str changed it to {:?}", limit, v));
+        // a single string is ONE item (multiplicity 1): limit 0 leaves no item, any other limit leaves it alone
+        if limit == 0 { t.check(v.multiplicity() == 0, || format!("truncate(0) on a Str left {} item(s): {:?}", v.multiplicity(), v)); }
+        else { t.check(v == PrimitiveValue::Str("A\\B".to_string()), || format!("truncate({}) on a Str changed it to {:?}", limit, v)); }
         let d = [DicomDate::from_y(1999).unwrap(), DicomDate::from_ym(2000, 2).unwrap(), DicomDate::from_ymd(2001, 3, 4).unwrap()];
         let mut v = PrimitiveValue::Date(C::from_vec(d.to_vec()));
         v.truncate(limit);
